@@ -104,7 +104,8 @@ class Check:
                 o = rng.choice(sorted(table['top'].values(), key=lambda o: o['name']))
                 out[o['name']] = P.cli_value(P.draw_value(rng, o, True))
             elif kind == 'sub' and table.get('sub'):
-                cands = [o for o in sorted(table['sub'].values(), key=lambda o: o['name']) if not o.get('yield')]
+                cands = [o for o in sorted(table['sub'].values(), key=lambda o: o['name'])
+                         if not o.get('yield') or (o['name'] in (table['top'] or {}) and rng.random() < 0.5)]
                 if cands:
                     o = rng.choice(cands)
                     out[f"{P.SUB}:{o['name']}"] = P.cli_value(P.draw_value(rng, o, True))
@@ -141,7 +142,21 @@ class Check:
             if fk == 'ioerr':
                 fault.update({'seam': rng.choice(IO_SEAMS), 'k': rng.randint(1, 4), 'errno': rng.choice([errno.ENOSPC, errno.EIO])})
         if op == 'edit':
-            ed = P.draw_edit(rng, work)
+            ed = None
+            if m.own and rng.random() < 0.5:
+                # bias: edit the definition of an option the user has just pinned
+                nm = rng.choice(sorted(m.own)).split(':', 1)[1]
+                o = next((o for o in (work.get('sub') or []) if o['name'] == nm and o['type'] == 'combo'), None)
+                if o is not None:
+                    if rng.random() < 0.5 and len(o['choices']) > 1:
+                        keep = sorted(rng.sample(o['choices'], len(o['choices']) - 1), key=o['choices'].index)
+                        ed = {'where': 'sub', 'kind': 'choices', 'name': nm, 'choices': keep, 'value': o['value'] if o['value'] in keep else keep[0]}
+                    else:
+                        extra = [c for c in ['k1', 'k2', 'k3', 'k4', 'k5'] if c not in o['choices']]
+                        if extra:
+                            ed = {'where': 'sub', 'kind': 'choices', 'name': nm, 'choices': o['choices'] + [extra[0]], 'value': o['value']}
+            if ed is None:
+                ed = P.draw_edit(rng, work)
             if ed is None:
                 return None
             return {'op': 'edit', 'edit': ed}
@@ -151,12 +166,12 @@ class Check:
         elif op == 'configure':
             st['D'] = self.valid_assign(rng, m, m.files, rng.randint(1, 3)) or {'warning_level': '2'}
         elif op == 'configure-U':
-            if not m.aug:
+            if not m.aug and not m.own:
                 k = f'{P.SUB}:' + rng.choice(['warning_level', 'default_library', 'werror'])
                 if m.known.get('sub') is None:
                     return None
                 return {'op': 'configure', 'D': {k: rng.choice(OR.BUILTIN_CHOICES[k.split(':')[1]])}}
-            st = {'op': 'configure', 'U': [rng.choice(sorted(m.aug))], 'D': {}}
+            st = {'op': 'configure', 'U': [rng.choice(sorted(set(m.aug) | m.own))], 'D': {}}
             if rng.random() < 0.3:
                 st['D'] = {k: v for k, v in self.valid_assign(rng, m, m.files, 1).items() if k not in st['U']}
         elif op == 'reconfigure':
@@ -221,6 +236,7 @@ class Check:
                 m.configured = False
                 m.known = {'top': {}, 'sub': None}
                 m.vals, m.builtin, m.aug = {}, {}, {}
+                m.own = set()
             return False if fault['kind'] != 'ioerr' else None
         if op == 'setup':
             return m.setup(st.get('D') or {})
